@@ -1,7 +1,7 @@
 """C17 — partial/alternative readers vs the full reader: sibling record tables, unit formulas,
 header-writer clones, raw-cell byte accounting and release protocol, timestamp constants, tag filter."""
 import re
-from .. import tables, clone
+from .. import flow, tables, clone
 from ..facts import AnalysisBroken
 from ..flow import lvalue_key, is_assign, _strip_casts
 
@@ -159,7 +159,9 @@ def check_header_clones(ctx, db):
     is_units_write = lambda s: s.k == 'CallExpr' and s.callee == 'fwrite' and 'units' in s.args[0].text() and 'buffer' not in s.args[0].text()
     # what is compared is what is emitted: the declarations (length, header words, units) and the swap / fwrite calls. How the
     # name length is rounded up to even (`if (len % 2) len++`, `len += len % 2`) is C03's parity obligation, not a clone property.
-    emits = lambda ss: [s_ for s_ in ss if s_.k in ('DeclStmt', 'CallExpr')]
+    # (the declaration of the padded length itself - `len = strlen(name); if (len % 2) len++;`, `len = n % 2 ? n + 1 : n` - is
+    # left out with it: that it is strlen(name) rounded up to even is decided by C03's record/parity interpretation of both functions)
+    emits = lambda ss: [s_ for s_ in ss if s_.k in ('DeclStmt', 'CallExpr') and not is_len(s_)]
     a = canon_stmts(wg, emits(between(wg, is_len, is_units_write)))
     b = canon_stmts(gi, emits(between(gi, is_len, is_units_write)))
     clone.check_family(ctx, 'R-CLONE', 'gds-header', [('Library::write_gds[header]', wg.loc(), a), ('gdswriter_init[header]', gi.loc(), b)], 2)
@@ -565,6 +567,13 @@ def run(ctx):
     ctx.attempt(check_payload_strings, ctx, db)
     ctx.attempt(check_record_buffers, ctx, db)
     ctx.attempt(check_decoder_conversions, ctx, db)
+    from . import C20   # the tag sets of the summary and the tag filter of the full load are Set<Tag>: they must behave as sets
+    nre = 0
+    for f_ in db.functions:
+        if f_.body is not None and f_.relfile() in ('src/rawcell.cpp',):
+            nre += flow.check_reexamine(ctx, f_)
+    ctx.require('R-REEXAMINE removals inside index loops', nre, 2)
+    ctx.memo('tables', C20.TABLE_FILES, C20.check_tables, db)
     from . import C03   # loading with a target unit == loading natively and rescaling: scale factor, unit, precision and the default tolerance of the UNITS arm
     ctx.attempt(C03.check_units_arm, ctx, db)
 
